@@ -111,6 +111,15 @@ reg("C19", "model_checking",
     "Tolerated maximum and timeout hard-coded in the oracle; period configured through the module constant; zigpy.util.Requests back-filled to construct the application.",
     "DESIGN.md section 3 C19")
 
+reg("C17", "model_checking",
+    "complete enumeration of every order of every subset of each operation's event set, each a full execution of the real operation on a hand-stepped loop",
+    "formNetwork, leaveNetwork, network bring-up and startScan (v4, v8, v14; thorough 8 versions): all permutations of all subsets of {response ok / refusals, two matching status events, "
+    "non-matching events, result callbacks, completion ok / error, timer expiry, cancellation} (about 57 000 executions quick). A reference automaton gives the expected outcome and the exact event "
+    "that ends the operation (completion requires response OK and a matching event at any time after issue, also before the response; timeouts at exactly 10 s); left-over events are still delivered, "
+    "listener tables must be back to their size, and the operation is run again from the state reached.",
+    "Callbacks carry the last answered sequence number; timeouts hard-coded; scan results after the completion callback are optional; leak clause reads _callbacks / _stack_status_listeners.",
+    "DESIGN.md section 3 C17")
+
 ALL = ["C%02d" % i for i in range(1, 21)]
 
 
